@@ -790,6 +790,11 @@ impl<'input, T: Input> Scanner<'input, T> {
                 break;
             }
             self.fetch_next_token()?;
+            #[cfg(feature = "verif-hooks")]
+            crate::verif::emit(crate::verif::VerifEvent::ScanFetch {
+                index: self.mark.index,
+                tokens: self.tokens_parsed + self.tokens.len(),
+            });
         }
         self.token_available = true;
 
@@ -1539,6 +1544,16 @@ impl<'input, T: Input> Scanner<'input, T> {
         self.unroll_indent(-1);
         self.remove_simple_key()?;
         self.disallow_simple_key();
+        #[cfg(feature = "verif-hooks")]
+        crate::verif::emit(crate::verif::VerifEvent::DocIndicator {
+            indent: self.indent,
+            indents: self.indents.len(),
+            flow_level: self.flow_level as usize,
+            possible_keys: self.simple_keys.iter().filter(|sk| sk.possible).count(),
+            simple_keys: self.simple_keys.len(),
+            implicit_mappings: self.implicit_flow_mapping_states.len(),
+            flow_mapping_started: self.flow_mapping_started,
+        });
 
         let mark = self.mark;
 
